@@ -27,6 +27,7 @@ import (
 	coremeta "github.com/zilliztech/milvus-cdc/core/meta"
 	"github.com/zilliztech/milvus-cdc/core/reader"
 	"github.com/zilliztech/milvus-cdc/core/util"
+	cdcwriter "github.com/zilliztech/milvus-cdc/core/writer"
 	"github.com/zilliztech/milvus-cdc/server"
 	serverapi "github.com/zilliztech/milvus-cdc/server/api"
 	"github.com/zilliztech/milvus-cdc/server/metrics"
@@ -101,6 +102,9 @@ const (
 	canaryToken = "TKN-CANARY-7f3a91"
 	canaryPass  = "PWD-CANARY-9c1d42"
 	canaryUser  = "usr-canary"
+	canaryKPass = "KPW-CANARY-55aa07"
+	canaryKUser = "KUS-CANARY-e2b8c4"
+	kafkaAddr   = "kafka-x:9092"
 	sRoot       = "cdc-root"
 )
 
@@ -359,6 +363,7 @@ func (r *RigS) build() {
 			r.metaQ.LoadRows(st.MetaSQL)
 		}
 	}
+	cdcwriter.VerifKafkaStub = true
 	reader.VerifEtcdClient = func(cfg config.EtcdServerConfig) *clientv3.Client { return r.src.Client(ctx) }
 	reader.VerifDispatcherClient = func(mqConfig config.MQConfig, tt bool) msgdispatcher.Client {
 		r.mu.Lock()
@@ -439,15 +444,24 @@ func (r *RigS) body(op *SOp) string {
 	switch op.K {
 	case "create":
 		sp := op.Spec
-		mp := map[string]any{"uri": r.sc.Targets[sp.Target%2], "connect_timeout": 10, "channel_num": r.sc.Knobs.ChannelNum}
-		switch sp.Creds {
-		case "token":
-			mp["token"] = canaryToken
-		case "userpass":
-			mp["username"] = canaryUser
-			mp["password"] = canaryPass
+		if sp.Kafka {
+			kp := map[string]any{"address": kafkaAddr, "topic": "cdc-topic"}
+			if sp.Creds != "none" {
+				kp["enable_sasl"] = true
+				kp["sasl"] = map[string]any{"username": canaryKUser, "password": canaryKPass, "mechanisms": "PLAIN", "security_protocol": "SASL_SSL"}
+			}
+			data["kafka_connect_param"] = kp
+		} else {
+			mp := map[string]any{"uri": r.sc.Targets[sp.Target%2], "connect_timeout": 10, "channel_num": r.sc.Knobs.ChannelNum}
+			switch sp.Creds {
+			case "token":
+				mp["token"] = canaryToken
+			case "userpass":
+				mp["username"] = canaryUser
+				mp["password"] = canaryPass
+			}
+			data["milvus_connect_param"] = mp
 		}
-		data["milvus_connect_param"] = mp
 		ci := map[string]any{"name": sp.Coll}
 		if sp.UseStart {
 			ci["use_start_position"] = true
@@ -514,8 +528,8 @@ func (r *RigS) startOp(idx int) {
 			out.Code = *resp.Code
 			out.Msg = trunc(resp.Message, 300)
 		}
-		if strings.Contains(raw, canaryToken) || strings.Contains(raw, canaryPass) {
-			r.s.Violate("C18", "secret_in_response", "response to %s request %d contains a credential: %s", op.K, idx, trunc(raw, 300))
+		if c := secretIn(raw); c != "" {
+			r.s.Violate("C18", "secret_in_response", "response to %s request %d contains the %s: %s", op.K, idx, c, trunc(raw, 300))
 		}
 		r.mu.Lock()
 		r.opDone = out
@@ -938,17 +952,21 @@ func (r *RigS) scanLog() {
 	}
 	r.s.Stats["log_bytes"] += len(b)
 	for _, line := range strings.Split(string(b), "\n") {
-		for _, c := range []string{canaryToken, canaryPass} {
-			if strings.Contains(line, c) {
-				kind := "token"
-				if c == canaryPass {
-					kind = "password"
-				}
-				site := logSite(line)
-				r.s.Violate("C18", "secret_in_log:"+site, "log line contains the %s: %s", kind, trunc(line, 400))
-			}
+		if kind := secretIn(line); kind != "" {
+			site := logSite(line)
+			r.s.Violate("C18", "secret_in_log:"+site, "log line contains the %s: %s", kind, trunc(line, 400))
 		}
 	}
+}
+
+// secretIn names the credential canary found in a text ("" if none).
+func secretIn(text string) string {
+	for _, c := range [][2]string{{canaryToken, "Milvus token"}, {canaryPass, "Milvus password"}, {canaryKPass, "Kafka SASL password"}, {canaryKUser, "Kafka SASL username"}} {
+		if strings.Contains(text, c[0]) {
+			return c[1]
+		}
+	}
+	return ""
 }
 
 // logSite extracts "file.go:line" and the message of a zap console line.
